@@ -61,6 +61,10 @@ def run(pid, tier):
                 scen.append(s)
     obs = pc.execute(rep, scen, 'default', 'C05')
     pc.validate(rep, 'C05', scen, obs, 'C05-default', kindfn=kind)
+    # the error callback is optional: without it the same errors must be queued (they are read from the queue after each call)
+    sub = [i for i in range(len(scen)) if i % 6 == 0 or len(scen[i]['scripts']) > 1]
+    obs2 = pc.execute(rep, [scen[i] for i in sub], 'default', 'C05noerrcb', env={'DRV_NULL_ERROR': '1'})
+    pc.validate(rep, 'C05', [scen[i] for i in sub], obs2, 'C05-no-error-callback', kindfn=kind)
     suite_traces.validate(rep, 'C05:')
     composition.validate(rep, 'C05', tier)   # random messages of a minimal instrument against Scpi.tla      # hook traces of the repository's own test programs
     nt = [s for s in scen if nontrivial(s)]
